@@ -312,3 +312,89 @@ Proof.
       destruct (N.eqb_spec j i) as [->|]; lia.
     + congruence.
 Qed.
+
+(* ---- all histories -------------------------------------------------------------------------------- *)
+Lemma run_from_sim ns : forall ops s a,
+  R ns s a -> safe_from ns a ops = true ->
+  map fst (run_from ns s ops) = spec_from ns a ops.
+Proof.
+  induction ops as [|o ops IH]; intros s a HR Hsafe; [reflexivity|].
+  cbn [run_from spec_from safe_from] in *.
+  apply andb_true_iff in Hsafe. destruct Hsafe as [Hs1 Hs2].
+  destruct (step ns s o) as [s' r] eqn:E1. destruct (spec_step ns a o) as [a' r'] eqn:E2.
+  destruct (step_sim _ _ _ _ _ _ _ _ HR Hs1 E1 E2) as [HR' ->].
+  cbn [map fst]. cbn [fst] in Hs2.
+  f_equal; [apply observe_eq; exact HR' | apply IH; assumption].
+Qed.
+
+Theorem run_refines_spec ns ops :
+  safe_hist ns ops = true -> run ns ops = spec_run ns ops.
+Proof.
+  intro H. unfold run, run_full, spec_run. apply run_from_sim; [apply R_init | exact H].
+Qed.
+
+(* ---- MaxObjects() >= NumObjects() for every container after every operation ------------------------ *)
+Definition caps_ok (p : obs * list N) : Prop :=
+  Forall2 (fun l c => len l <= c) (o_slots (fst p)) (snd p).
+
+Lemma Forall2_map_ids {A B} (P : A -> B -> Prop) (f : N -> A) (g : N -> B) (ids : list N) :
+  (forall i, P (f i) (g i)) -> Forall2 P (map f ids) (map g ids).
+Proof. intro H. induction ids; cbn [map]; constructor; auto. Qed.
+
+Lemma caps_from_sim ns : forall ops s a,
+  R ns s a -> safe_from ns a ops = true -> Forall caps_ok (run_from ns s ops).
+Proof.
+  induction ops as [|o ops IH]; intros s a HR Hsafe; [constructor|].
+  cbn [run_from safe_from] in *.
+  apply andb_true_iff in Hsafe. destruct Hsafe as [Hs1 Hs2].
+  destruct (step ns s o) as [s' r] eqn:E1. destruct (spec_step ns a o) as [a' r'] eqn:E2.
+  destruct (step_sim _ _ _ _ _ _ _ _ HR Hs1 E1 E2) as [HR' ->].
+  cbn [fst] in Hs2. constructor; [|eapply IH; eassumption].
+  unfold caps_ok, observe, caps; cbn [fst snd o_slots].
+  apply Forall2_map_ids. intro i. destruct HR' as (Hs & _).
+  rewrite (contents_ok _ _ (Hs i)). destruct (Hs i) as (Hn & Hm & _). lia.
+Qed.
+
+Theorem capacity_covers_contents ns ops :
+  safe_hist ns ops = true -> Forall caps_ok (run_full ns ops).
+Proof. intro H. unfold run_full. eapply caps_from_sim; [apply R_init | exact H]. Qed.
+
+(* ---- the defective operations ------------------------------------------------------------------------ *)
+(* SetNumObjects(n) with n < NumObjects() drops the elements without destructing them *)
+Lemma setnum_shrink_refuted :
+  exists ops, run 1 ops <> spec_run 1 ops.
+Proof. exists [OAdd 0 1%Z; OSetNum 0 0]. vm_compute. intro H. discriminate H. Qed.
+
+(* InsertObjectAt without reallocation assigns to the raw cell behind the last element *)
+Lemma insert_in_place_refuted :
+  exists ops, run 1 ops <> spec_run 1 ops.
+Proof. exists [OAdd 0 1%Z; OInsertAt 0 1 5%Z]. vm_compute. intro H. discriminate H. Qed.
+
+(* InsertObjectAt with reallocation frees the old block without destructing its elements *)
+Lemma insert_realloc_refuted :
+  exists ops, run 1 ops <> spec_run 1 ops.
+Proof. exists [OAdd 0 1%Z; OAdd 0 2%Z; OInsertAt 0 1 5%Z]. vm_compute. intro H. discriminate H. Qed.
+
+(* Resize(0) destroys the contents *)
+Lemma resize_zero_refuted :
+  exists ops, run 1 ops <> spec_run 1 ops.
+Proof. exists [OAdd 0 1%Z; OResize 0 0]. vm_compute. intro H. discriminate H. Qed.
+
+(* ---- histories without the three defective operations are safe ------------------------------------------ *)
+Definition plain_op (o : op) : bool :=
+  match o with
+  | OSetNum _ _ | OInsertAt _ _ _ | OResize _ _ => false
+  | _ => true
+  end.
+
+Lemma plain_safe ns : forall ops a, forallb plain_op ops = true -> safe_from ns a ops = true.
+Proof.
+  induction ops as [|o ops IH]; intros a H; [reflexivity|].
+  cbn [forallb safe_from] in *. apply andb_true_iff in H. destruct H as [H1 H2].
+  apply andb_true_iff. split; [|apply IH; exact H2].
+  apply orb_true_iff. right. destruct o; try reflexivity; discriminate H1.
+Qed.
+
+Theorem run_refines_spec_plain ns ops :
+  forallb plain_op ops = true -> run ns ops = spec_run ns ops.
+Proof. intro H. apply run_refines_spec. apply plain_safe. exact H. Qed.
